@@ -11,5 +11,9 @@ CHECKS = {
     "C01": {"parts": [P("lookup", "./c01", "^TestC01$")]},
     "C02": {"parts": [P("quorum-intersection", "./c02", "^TestC02$")]},
     "C03": {"parts": [P("instance-ring", "./c03", "^TestC03Instances$"), P("partition-ring", "./c03", "^TestC03Partitions$")]},
+    "C05": {"parts": [P("merge-bfs", "./c05", "^TestC05$")]},
     "C14": {"parts": [P("instance-ranges", "./c14", "^TestC14Instances$"), P("partition-ranges", "./c14", "^TestC14Partitions$")]},
+    "C16": {"parts": [P("random-generator", "./c16", "^TestC16Random$"), P("spread-minimizing", "./c16", "^TestC16SpreadMinimizing$")]},
+    "C20": {"parts": [P("validation", "./c20", "^TestC20Validation$"), P("propagation", "./c20", "^TestC20Propagation$")]},
+    "C15": {"parts": [P("routing", "./c15", "^TestC15Routing$"), P("replication-sets", "./c15", "^TestC15ReplicationSets$")]},
 }
